@@ -1,7 +1,7 @@
 (* C09/Properties.v -- pinned statements of property C09. *)
 From Sophia.Common Require Import Prelude.
 From Sophia.C09 Require Import Regex Rfc3987 Resolve Model AtomsProofs Proofs.
-From Sophia.C09 Require Lang EquivIri EquivIrel Classify.
+From Sophia.C09 Require Lang EquivIri EquivIrel Classify SchemeAscii.
 
 (* ===== part (1): a string is accepted iff it matches the RFC 3987 grammar ===== *)
 (* the regenerated IRI_REGEX_SRC / IRELATIVE_REF_REGEX_SRC accept exactly the words of the rules IRI /
@@ -102,6 +102,28 @@ Example parts_ok_example :                      (* "s://h/p?q#f" *)
   cmp_ok [97] [97;98] Lt = true /\ cmp_ok [98] [97;98] Gt = true /\ cmp_ok [233] [233] Eq = true.
 Proof. vm_compute. repeat split; reflexivity. Qed.
 
+(* ===== the serde entry points (impl Deserialize / Serialize for Iri, IriRef) and the scheme of an accepted text ===== *)
+Check (iri_deserialize_spec : forall s, iri_deserialize s = if matchb IRI s then Some s else None).
+Check (iriref_deserialize_spec : forall s, iriref_deserialize s = if matchb IRI_reference s then Some s else None).
+Check (deserialize_keeps_text : forall s t, iri_deserialize s = Some t \/ iriref_deserialize s = Some t -> t = s).
+(* a relative reference is never read as an Iri, wherever its colons are *)
+Check (relative_ref_never_deserialized_as_iri : forall s,
+  matchb irelative_ref s = true -> iri_deserialize s = None /\ iriref_deserialize s = Some s).
+Check (iri_deserialize_is_iriref : forall s t, iri_deserialize s = Some t -> iriref_deserialize s = Some t).
+Check (iri_roundtrip_spec : forall s, iri_roundtrip s = iri_deserialize s).
+Check (iriref_roundtrip_spec : forall s, iriref_roundtrip s = iriref_deserialize s).
+Check (untagged_classifies : forall s, untagged_abs_or_ref s =
+  if matchb IRI s then Some (true, s) else if matchb irelative_ref s then Some (false, s) else None).
+Check (deserialized_iri_is_a_base : forall s t, iri_deserialize s = Some t -> base_iri_new_ok t = true).
+(* the scheme of an accepted text is an RFC 3986 scheme, hence ASCII (no case-folding partner such as U+017F, U+212A) *)
+Check (SchemeAscii.iri_scheme_is_ascii : forall s, matchb IRI s = true ->
+  exists sch rest, s = sch ++ 58 :: rest /\ matchb scheme sch = true /\ Forall SchemeAscii.is_ascii sch).
+Check (accepted_scheme_is_ascii : forall s, iri_new_ok s = true ->
+  exists sch rest, s = sch ++ 58 :: rest /\ matchb scheme sch = true /\ Forall (fun c => c < 128) sch).
+Check (non_ascii_before_colon_rejected : forall pre c rest,
+  Forall (fun x => x <> 58) pre -> 128 <= c ->
+  iri_new_ok (pre ++ c :: rest) = false /\ iri_deserialize (pre ++ c :: rest) = None).
+
 (* defects on record (see Proofs.v): the pre-fix regexes, the resolver's panic and its deviations
    from RFC 3986 5.2, and the fact that 5.2 itself is not closed under validity *)
 
@@ -157,3 +179,13 @@ Print Assumptions no_colon_no_scheme.
 Print Assumptions resolve_rel_colon_protected.
 Print Assumptions resolve_rel_no_scheme_applies.
 Print Assumptions parts_ok_example.
+(* iri_deserialize_spec, iriref_deserialize_spec, relative_ref_never_deserialized_as_iri, iri_deserialize_is_iriref,
+   untagged_classifies, accepted_scheme_is_ascii, non_ascii_before_colon_rejected are the conjuncts of: *)
+Print Assumptions serde_entry_points_rfc3987.
+Print Assumptions SchemeAscii.iri_scheme_is_ascii.
+Print Assumptions deserialize_keeps_text.
+Print Assumptions iri_roundtrip_spec.
+Print Assumptions iriref_roundtrip_spec.
+Print Assumptions deserialized_iri_is_a_base.
+Print Assumptions serde_examples.
+Print Assumptions case_folding_partners_examples.
